@@ -66,6 +66,34 @@ CHECKS = {
             'field rewrites, truncations, small strings in envelopes, header '
             'shapes', MC + 'C09: every input of the E4 fault spaces either '
             'decodes or raises UnmarshalingException.', TB, '3/C09'),
+    'C10': ('E1', 'explicit-state enumeration: every public encoder and '
+            'every argument of every class x adversarial value alphabets; '
+            'oracle raise-or-round-trip', MC + 'C10: every encoder entry '
+            'point x adversarial values (out-of-range, wrong type, non-'
+            'finite, oversize, falsy non-dicts, non-boolean bits): the call '
+            'raises or its output decodes to the normalised input and leaves '
+            'every other argument unchanged.', TB, '3/C10'),
+    'C11': ('E2', 'explicit-state BFS over the legacy-switch state machine '
+            '(behavioural state hash) + full integer observation in every '
+            'state, vs a 2-state model and the reference ladder',
+            MC + 'C11: BFS over toggle events closes at 2 behavioural '
+            'states; all 3^4 (3^6) event sequences without deduplication; '
+            'in each state all integers of [-70000, 70000] and every ladder '
+            'boundary neighbourhood at four positions against the reference '
+            'ladder.', TB, '3/C11'),
+    'C12': ('E1', 'explicit-state enumeration: all insertion-order '
+            'permutations of colliding keys x nested permutations x '
+            'positions; repeated encoding with deep before/after snapshots',
+            MC + 'C12: 720 (4320) insertion orders at 4 positions equal the '
+            'sorted reference; every corpus frame/value encoded twice with '
+            'identity-and-content snapshots.', TB, '3/C12'),
+    'C13': ('E1', 'explicit-state enumeration: every constrained argument '
+            'site x all Unicode code points / lengths / fixed-field values x '
+            '3 ways, vs an independent predicate', MC + 'C13: 41 sites from '
+            'the spec table; every code point 0..0x10FFFF in four positions '
+            '(2 sites quick, 20 thorough); constructor, setattr+marshal, '
+            'decode.', TB + 'None and identity-only differences are left '
+            'out.', '3/C13'),
     'C14': ('E1', 'complete enumeration of a finite catalogue against a '
             'transcribed specification table', MC + 'C14: every fact of all '
             '64 classes and Basic.Properties (1600+ facts) compared with the '
@@ -79,6 +107,12 @@ CHECKS = {
             'version triples', MC + 'C18: bodies, heartbeats and protocol '
             'headers round-trip and equal the reference bytes.', TB,
             '3/C18'),
+    'C19': ('E1', 'explicit-state enumeration: all classes x <=2-deviation '
+            'vectors (full products) x before/after round trip; mapping '
+            'protocol vs spec-table names', MC + 'C19: iteration, dict(), '
+            'len, membership, item access, attributes(), amqp_type agree '
+            'with the spec-table name list and the current attribute '
+            'values.', TB, '3/C19'),
     'C20': ('E4', 'exhaustive enumeration of header byte patterns + client '
             'procedure over every library-encoded corpus frame',
             MC + 'C20: frame_parts on every short buffer and 5^7 + 7x256x5 '
